@@ -355,6 +355,23 @@ def direct_clauses(pid, bench, ta, a, tb, b):
                 # ... and a range of two constraints: the version against a bound of the pool on the other side
                 for tm, mv in [cl[0] for cl in (bench.pool.classes[:1] + bench.pool.classes[-1:])]:
                     for c2 in ("<", ">=", "!="):
+                        # the property speaks about ranges in which every '!=' lies inside an included interval (or
+                        # there are only '!=') and every '=' lies outside all intervals
+                        try:
+                            low = bool(mv < y)
+                            high = bool(mv > y)
+                        except Exception:  # noqa: BLE001
+                            continue
+                        if low == high:
+                            continue
+                        inside = (c2 == "<" and high) or (c2 == ">=" and low)          # y inside the interval of c2 mv
+                        mv_inside = (c in ("<", "<=") and low) or (c in (">", ">=") and high)   # mv inside the interval of c y
+                        if c == "=" and (c2 == "!=" or inside):
+                            continue
+                        if c == "!=" and c2 != "!=" and not inside:
+                            continue
+                        if c2 == "!=" and c not in ("!=",) and not mv_inside:
+                            continue
                         try:
                             r2c = R(constraints=[mk(c, y), mk(c2, mv)])
                             VersionConstraint.validate(list(r2c.constraints))
@@ -526,12 +543,92 @@ def _more_unrankable(ctx, pid, bench, extra=4):
             if (ta, tb) not in seen:
                 seen.add((ta, tb))
                 bench.pool.unrankable.append((ta, a, tb, b))
+        bench.pool.cycles.extend(p.cycles)
+
+
+TRIPLE_PATTERNS = ((">=", "!=", "<"), ("=", "=", "="), ("<=", ">", "!="), ("!=", "!=", "!="), (">=", "<", ">="), ("<", ">=", "<"))
+
+
+def triple_clauses(pid, bench, items):
+    """clauses of `pid` on THREE real versions that the real operators order in a circle: through the real API only"""
+    import itertools
+    mk = lambda c, v: VersionConstraint(comparator=c, version=v)   # noqa: E731
+    R = bench.rclass
+    for pat in TRIPLE_PATTERNS:
+        for assign in itertools.permutations(items):
+            cons = [(c, t, v) for c, (t, v) in zip(pat, assign)]
+            texts, members = {}, {}
+            raised = None
+            for order in itertools.permutations(cons):
+                try:
+                    r = R(constraints=[mk(c, v) for c, _t, v in order])
+                    texts.setdefault(str(r), [c + t for c, t, _v in order])
+                except Exception as e:  # noqa: BLE001
+                    raised = exc_name(e)
+                    break
+                if pid == "C04":
+                    try:
+                        VersionConstraint.validate(list(r.constraints))
+                    except Exception:  # noqa: BLE001 — not a well-formed range: not this clause's business
+                        continue
+                    for t, v in items:
+                        m = _mem(r, v)
+                        if not isinstance(m, bool):
+                            yield ("the membership test raises on a range that validation accepts",
+                                   {"range": str(r), "constraints_given": [c + t2 for c, t2, _v in order], "version": t, "answer": m})
+                            return
+                if pid in ("C04", "C13", "C17"):
+                    members.setdefault(tuple(str(_mem(r, v)) for _t, v in items), [c + t for c, t, _v in order])
+            if raised:
+                continue
+            if len(texts) > 1 and pid != "C04":
+                (t1, o1), (t2, o2) = list(texts.items())[:2]
+                yield ("the same three constraints given in another order give another canonical text",
+                       {"given_1": o1, "text_1": t1, "given_2": o2, "text_2": t2})
+                return
+            if len(members) > 1:
+                (m1, o1), (m2, o2) = list(members.items())[:2]
+                yield ("the same three constraints given in another order give another membership",
+                       {"given_1": o1, "membership_1": list(m1), "given_2": o2, "membership_2": list(m2), "versions": [t for t, _v in items]})
+                return
+
+
+def probe_cycles(ctx, pid, bench, cap=6):
+    from harness import layera as A
+    stream = "unrankable-three:" + bench.name
+    n = 0
+    for ta, a, tb, b, near in bench.pool.cycles:
+        for tz, z in near:
+            if n >= cap:
+                return
+            if not A.c01_in_domain(bench.name, [ta, tb, tz]):
+                continue
+            try:
+                if bench.name == "maven" and any(d.strip() != "in" for d in common.run_model(["vdomain maven %s" % common.hx(t) for t in (ta, tb, tz)])):
+                    continue
+                if bench.name == "conan" and any(common.run_model(["vcompat conan %s %s" % (common.hx(p), common.hx(q))])[0].strip() != "in"
+                                                 for p, q in ((ta, tb), (ta, tz), (tb, tz))):
+                    continue
+            except Exception:  # noqa: BLE001
+                continue
+            n += 1
+            ctx.count(stream, key=(ta, tb, tz), nontrivial=True)
+            try:
+                fails = list(triple_clauses(pid, bench, [(ta, a), (tb, b), (tz, z)]))
+            except Exception as e:  # noqa: BLE001
+                fails = [("the clauses could not be evaluated", {"error": exc_name(e)})]
+            for clause, detail in fails[:1]:
+                rep = {"scheme": bench.name, "a": ta, "b": tb, "c": tz, "clause": clause}
+                rep.update(detail)
+                ctx.disagree(stream, "%s / %s / %s" % (ta, tb, tz), clause, "-", True, rep, spec="the clause holds")
 
 
 def probe_unrankable(ctx, pid, bench):
     """run the direct clauses of `pid` on the versions the pool could not rank; report each failure as a violation"""
     stream = "unrankable:" + bench.name
     _more_unrankable(ctx, pid, bench)
+    if pid in ("C04", "C13", "C17"):
+        probe_cycles(ctx, pid, bench)
     for ta, a, tb, b in unrankable_pairs(bench):
         ctx.count(stream, key=(ta, tb), nontrivial=True)
         try:
